@@ -25,6 +25,9 @@ func propC03(c *Ctx) {
 	c.ruleNoDroppedError("C03-NO-DROPPED-ERROR")
 	c.ruleAnnotationUseOrReject()
 	c.ruleJsightFirst()
+	// faults placed inside INCLUDEd files: the file that is read must be the one the INCLUDE names
+	c.ruleC14ValidateFirst()
+	c.ruleMemoCoverage("C03-MEMO-KEY-COVERS")
 }
 
 // orderedMapType: is t (pointer to) one of the generated ordered maps (struct with data map + order slice)?
